@@ -190,6 +190,27 @@ impl<const N: usize> Default for Events<N> {
     }
 }
 
+/// Hooks for the out-of-tree verification harness (property C12). Compiled only
+/// with the `verif` feature; adds no behaviour.
+#[cfg(feature = "verif")]
+impl<const N: usize> Events<N> {
+    /// Thin public wrapper around the crate-private [`Events::load_persist`],
+    /// which [`InteractionModel::startup`](crate::im::InteractionModel::startup)
+    /// drives.
+    pub fn verif_load_persist(
+        &self,
+        kv: &mut dyn KvBlobStore,
+        buf: &mut [u8],
+    ) -> Result<(), Error> {
+        self.load_persist(kv, buf)
+    }
+
+    /// The event number the next pushed event would get (read-only).
+    pub fn verif_next_event_number(&self) -> EventNumber {
+        self.inner.lock(|state| state.borrow().next_event_number)
+    }
+}
+
 /// The inner state of the events queue, protected by a mutex in the outer Events struct. This is where all the actual logic lives.
 ///
 /// It's modeled after the tiered ring buffer design used in the C++ matter SDK:
